@@ -250,7 +250,7 @@ def part_literals(sh, res):
                         sig = 'literal-not-opaque'
                         if hdr and any(toks[i] == 'a.zz' for i in tup) and got['error'] and got['error'][0] == 'parsing' and 'Unable to find column' in got['error'][2]:
                             sig = 'F7:attribute-like-text-in-literal-with-header'
-                        res.violation(sig, {'kind': 'literal', 'position': pos, 'query': text, 'literal_value': value, 'quote': quote, 'has_header': hdr, 'A': A}, {'records': exp.records, 'error': exp.error},
+                        res.violation(sig, {'kind': 'literal', 'position': pos, 'query': text, 'literal_value': value, 'quote': quote, 'has_header': hdr, 'a_names': an, 'A': A}, {'records': exp.records, 'error': exp.error},
                                       {'records': got['records'], 'error': got['error']}, why)
                     res.outcome(pos)
     qcheck.run_js_cases(res, sh.setdefault('_jscases', []), lambda *a: 'literal-not-opaque', tag='js')
@@ -291,7 +291,7 @@ def replay(rep):
         print('canonical:', c['canonical'], '\n ->', outcome_key(a)); print('respelled:', repr(c['respelled']), '\n ->', outcome_key(b))
         return 0 if outcome_key(a) == outcome_key(b) else 1
     if c.get('kind') == 'literal':
-        got = drive.run_py(c['query'], qcheck.copy_table(c['A']), None, ['name', 'val'] if c['has_header'] else None, None)
-        print(c['query'], '->', got['records'], got['error'])
+        got = drive.run_py(c['query'], qcheck.copy_table(c['A']), None, c.get('a_names', ['name', 'val'] if c['has_header'] else None), None)
+        print(c['query'], 'over columns', c.get('a_names'), '->', got['records'], got['error'])
         return 0
     return qcheck.replay_case(rep)
